@@ -66,7 +66,7 @@ func RunOnce(eng Engine, rc *RunCtx) (res RunResult) {
 	// wall-clock watchdog per run: a run that neither finishes nor fails is a
 	// harness problem (e.g. a goroutine blocked non-durably inside a bubble);
 	// dump all stacks so that it can be diagnosed, and die (the runner reports exit 2).
-	limit := 300 * time.Second
+	limit := 240 * time.Second
 	if v := os.Getenv("VERIF_RUN_TIMEOUT_S"); v != "" {
 		if n, err := strconv.Atoi(v); err == nil && n > 0 {
 			limit = time.Duration(n) * time.Second
